@@ -81,7 +81,7 @@ def array_filter(_filter: FilterT) -> FilterT:
 
         try:
             return _filter(val, *args, **kwargs)
-        except (TypeError, ValueError) as err:
+        except (TypeError, ValueError, OverflowError) as err:
             raise FilterArgumentError(err, token=None) from err
 
     return wrapper
@@ -107,7 +107,7 @@ def sequence_filter(_filter: FilterT) -> FilterT:
             # This type error came from an internal `_getitem` call, not a
             # call to the filter callable.
             return None
-        except (TypeError, ValueError) as err:
+        except (TypeError, ValueError, OverflowError) as err:
             raise FilterArgumentError(err, token=None) from err
 
     return wrapper
@@ -120,7 +120,7 @@ def liquid_filter(_filter: FilterT) -> FilterT:
     def wrapper(val: object, *args: Any, **kwargs: Any) -> Any:
         try:
             return _filter(val, *args, **kwargs)
-        except (TypeError, ValueError) as err:
+        except (TypeError, ValueError, OverflowError) as err:
             raise FilterArgumentError(err, token=None) from err
 
     return wrapper
